@@ -54,8 +54,11 @@ func genC16(seed uint64, tier string) *Tape {
 			t.Steps = append(t.Steps, Step{Op: "backup", Kind: []string{"api", "http"}[rng.IntN(2)]})
 		case x < 66:
 			t.Steps = append(t.Steps, Step{Op: "delbackup", X: int64(rng.IntN(1 << 16)), Kind: []string{"api", "http"}[rng.IntN(2)]})
-		case x < 74:
+		case x < 70:
 			t.Steps = append(t.Steps, Step{Op: "list", Kind: []string{"api", "http"}[rng.IntN(2)]})
+		case x < 74:
+			// two overlapping backups and an insertion that arrives in between
+			t.Steps = append(t.Steps, Step{Op: "cbackup", K: 1 + rng.IntN(3)})
 		case x < 80:
 			t.Steps = append(t.Steps, Step{Op: "stop", Kind: []string{"clean", "crash"}[rng.IntN(2)]}, Step{Op: "start"}, Step{Op: "elect"})
 			if rng.IntN(2) == 0 {
@@ -68,6 +71,106 @@ func genC16(seed uint64, tier string) *Tape {
 	t.Steps = append(t.Steps, Step{Op: "backup", Kind: "api"}, Step{Op: "add", K: 2, Kind: "api", Data: "sync"}, Step{Op: "list", Kind: "http"},
 		Step{Op: "restore", Kind: "engine-latest", K: 2}, Step{Op: "restore", Kind: "store-id", X: 0, K: 1})
 	return t
+}
+
+// c16Unknown marks a backup whose content the model cannot know (it raced an insertion).
+const c16Unknown = ^uint64(0)
+
+// c16ConcurrentBackup: backup B1 is parked inside the store's Backup call;
+// backup B2 and an insertion are started behind it, then B1 is released.
+func (w *worldA) c16ConcurrentBackup(nd *simNode, s Step, backups map[uint32]uint64) {
+	r := w.r
+	e := w.e
+	if e.leader != nd.id {
+		return
+	}
+	before := nd.rn.SimBalloonVersion()
+	parked, resume := make(chan struct{}), make(chan struct{})
+	first := true
+	nd.store.beforeBackup = func() {
+		if first {
+			first = false
+			parked <- struct{}{}
+			<-resume
+		}
+	}
+	defer func() { nd.store.beforeBackup = nil }()
+	type res struct {
+		err error
+		cp  *CapturedPanic
+	}
+	run := func(f func() error) (chan res, chan string) {
+		done, gid := make(chan res, 1), make(chan string, 1)
+		go func() {
+			gid <- curGID()
+			var out res
+			out.cp = Capture(func() { out.err = f() })
+			done <- out
+		}()
+		return done, gid
+	}
+	waitBlocked := func(gid string, done chan res) bool {
+		for spins := 0; spins < 400000; spins++ {
+			if len(done) > 0 {
+				return false
+			}
+			if st, ok := goroutineState(gid); ok && blockedOnLock(st) && spins > 3 {
+				return true
+			}
+			runtimeYield(spins)
+		}
+		r.Bug("goroutine neither finished nor blocked")
+		return false
+	}
+	d1, _ := run(nd.rn.CreateBackup)
+	<-parked
+	d2, g2 := run(nd.rn.CreateBackup)
+	waitBlocked(<-g2, d2)
+	var ds []hashing.Digest
+	for k := 0; k < s.K; k++ {
+		d := sha(w.newEvent())
+		ds = append(ds, d)
+	}
+	dA, gA := run(func() error {
+		f := e.proposeOn(nd, raft.LogCommand, consensus.SimEncodeAdd(ds))
+		e.pumpKind = "sync"
+		_, err := e.pump(nd, f)
+		e.pumpKind = ""
+		return err
+	})
+	waitBlocked(<-gA, dA)
+	resume <- struct{}{}
+	for _, d := range []chan res{d1, d2, dA} {
+		out := <-d
+		if out.cp != nil {
+			if vp, ok := out.cp.Value.(violationPanic); ok {
+				panic(vp)
+			}
+			if out.cp.Harness {
+				r.Bug("%s\n%s", out.cp, out.cp.Stack)
+			}
+			r.Fail("backup-created", "a backup or insertion running concurrently failed internally: %s", out.cp)
+		}
+		if out.err != nil {
+			r.Fail("backup-created", "a backup or insertion running concurrently failed: %v", out.err)
+		}
+	}
+	var fresh []uint32
+	for _, bi := range nd.rn.ListBackups() {
+		if _, ok := backups[uint32(bi.ID)]; !ok {
+			fresh = append(fresh, uint32(bi.ID))
+		}
+	}
+	if len(fresh) != 2 {
+		r.Fail("backup-list", "after two concurrent backups the list shows %d new backups", len(fresh))
+	}
+	sort.Slice(fresh, func(i, j int) bool { return fresh[i] < fresh[j] })
+	backups[fresh[0]] = before    // B1 read the store before the insertion could run
+	backups[fresh[1]] = c16Unknown // B2 raced the insertion
+	r.Logf("CBACKUP #%d at %d events, #%d concurrent with an insertion of %d", fresh[0], before, fresh[1], s.K)
+	r.Count("fault.concurrent_backup")
+	// restore the racing one right away
+	w.c16Restore(nd, fresh[1], c16Unknown, "store-id", 1, 1000+int(fresh[1]))
 }
 
 type c16Env struct{}
@@ -126,6 +229,8 @@ func execC16(r *Run) {
 			r.Logf("BACKUP #%d at %d events", nextID, n)
 			r.Count("op.backup")
 			w.c16List(nd, backups, "api")
+		case "cbackup":
+			w.c16ConcurrentBackup(nd, s, backups)
 		case "delbackup":
 			ids := c16IDs(backups)
 			if len(ids) == 0 {
@@ -209,7 +314,7 @@ func (w *worldA) c16List(nd *simNode, backups map[uint32]uint64, via string) {
 		if !ok {
 			r.Fail("backup-list", "the list shows backup %d, which does not exist (existing: %v)", bi.ID, c16IDs(backups))
 		}
-		if n > 0 && bi.Metadata != fmt.Sprint(n-1) {
+		if n != c16Unknown && n > 0 && bi.Metadata != fmt.Sprint(n-1) {
 			r.Fail("backup-version", "backup %d was taken at version %d but records %q", bi.ID, n-1, bi.Metadata)
 		}
 	}
@@ -269,8 +374,20 @@ func (w *worldA) c16Restore(nd *simNode, id uint32, n uint64, how string, more i
 		consensus.SimForget(rn)
 		rn.Close(true)
 	}()
-	if got := rn.SimBalloonVersion(); got != n {
+	got := rn.SimBalloonVersion()
+	if n == c16Unknown {
+		n = got // taken while an insertion was racing it: whatever it holds, it must say so
+		if got > w.e.rlog.Len() {
+			r.Fail("restored-version", "the node restored from backup %d holds %d events, the log never had more than %d", id, got, w.e.rlog.Len())
+		}
+	}
+	if got != n {
 		r.Fail("restored-version", "backup %d was taken at %d events; the node restored from it holds %d", id, n, got)
+	}
+	for _, bi := range nd.rn.ListBackups() {
+		if uint32(bi.ID) == id && n > 0 && bi.Metadata != fmt.Sprint(n-1) {
+			r.Fail("backup-version", "backup %d records version %s but restores to a log of %d events (version %d)", id, bi.Metadata, n, n-1)
+		}
 	}
 	rl := w.e.rlog
 	rng := r.StepRng("restore")
